@@ -139,4 +139,39 @@ theorem cache_stable {tf : Ty → F} {s s' : State Ty F} {a : Act Ty} (hs : step
         · subst e; rw [hv] at hn; cases hn
         · simp [e, hv]
 
+/-! ### the overwriting variant (`Store`) -/
+
+theorem InvOw_step {tf : Ty → F} {s s' : State Ty F} {a : Act Ty} (h : Inv tf s) (hs : stepOw tf s a = some s') : Inv tf s' := by
+  cases a with
+  | start tid t => exact Inv_step (a := .start tid t) h hs
+  | run tid =>
+    cases hp : s.pc tid with
+    | idle l => exact Inv_step (a := .run tid) h (by simpa [stepOw, step, hp] using hs)
+    | load t => exact Inv_step (a := .run tid) h (by simpa [stepOw, step, hp] using hs)
+    | compute t => exact Inv_step (a := .run tid) h (by simpa [stepOw, step, hp] using hs)
+    | store t v =>
+      obtain ⟨h1, h2, h3⟩ := h
+      have hv := h2 tid t v hp
+      simp only [stepOw, hp] at hs
+      injection hs with hs; subst hs
+      refine ⟨?_, ?_, ?_⟩
+      · intro t' x hx
+        simp [State.setPc] at hx
+        by_cases e : t' = t
+        · subst e; simp at hx; rw [← hx]; exact hv
+        · simp [e] at hx; exact h1 t' x hx
+      · intro u t' x hu
+        by_cases e : u = tid
+        · subst e; simp [State.setPc] at hu
+        · simp [State.setPc, e] at hu; exact h2 u t' x hu
+      · intro u t' x hu
+        by_cases e : u = tid
+        · subst e; simp [State.setPc] at hu; obtain ⟨rfl, rfl⟩ := hu; exact hv
+        · simp [State.setPc, e] at hu; exact h3 u t' x hu
+
+theorem InvOw_reachable {tf : Ty → F} {s : State Ty F} (h : ReachableOw tf s) : Inv tf s := by
+  induction h with
+  | init => exact Inv_init tf
+  | step a _ hs ih => exact InvOw_step ih hs
+
 end GoMC.Lemmas.TypeCache
